@@ -242,8 +242,9 @@ Lemma stg_ok_transfer st st' id s :
 Proof.
   intros (H1 & H2 & H3 & H4 & H5 & H6) Hn Hm. repeat split; try assumption.
   destruct (s_base s) as [l|] eqn:Eb; [|assumption].
-  destruct H6 as (Hl & Hne & _). repeat split; try assumption; try lia;
-    destruct (Hm o H l eq_refl H0); assumption.
+  destruct H6 as (Hl & Hne & _).
+  split; [lia|]. split; [exact Hne|].
+  intros o Hg Hlin. exact (Hm o Hg l eq_refl Hlin).
 Qed.
 
 Lemma stg_ok_same st st' id s :
@@ -322,10 +323,11 @@ Proof.
       destruct (skey_case c id c' id') as [(E & -> & ->)|(E & Hne)]; rewrite E in Hg.
       * injection Hg as <-.
         unfold stg_ok. cbn [s_head s_versions s_state s_edits s_base].
-        repeat split; try assumption; try lia.
+        split; [exact Nwf|]. split; [exact Nfit|]. split; [lia|]. split; [lia|]. split; [reflexivity|].
+        split; [exact Olin|]. split.
         -- intros E0. rewrite E0 in Onum. cbn [List.length] in Onum. unfold vwf in Owf. lia.
-        -- getsimp. rewrite Em in H. injection H as <-. apply extends_refl.
-        -- getsimp. rewrite Em in H. injection H as <-. symmetry. exact Nw.
+        -- intros o2 Hg2 _. getsimp. rewrite Em in Hg2. injection Hg2 as <-.
+           split; [apply extends_refl|symmetry; exact Nw].
       * apply stg_ok_same with (st := st); [apply Hstag with (c := c'); exact Hg|reflexivity|reflexivity].
   - (* Commit, new object *)
     destruct (Hstag _ _ _ Es) as (Swf & Sfit & Sw & Snum & Sstate & Sbase).
@@ -779,7 +781,12 @@ Lemma race_exactly_one_wins :
   (exists s, sget (run true st [(0, Commit wit_id); (1, Commit wit_id)]) 1 wit_id = Some s /\
              s_state s = [(b "y.txt", 3); (b "a.txt", 1)]).
 Proof.
-  repeat split; try (vm_compute; reflexivity); eexists; repeat split; vm_compute; reflexivity.
+  cbv zeta.
+  split; [vm_compute; reflexivity|]. split; [vm_compute; reflexivity|].
+  split; [vm_compute; reflexivity|]. split; [vm_compute; reflexivity|].
+  split.
+  - eexists. split; [vm_compute; reflexivity|]. split; vm_compute; reflexivity.
+  - eexists. split; vm_compute; reflexivity.
 Qed.
 
 (** an object created with `-z 2` reaches v9 and then refuses to stage v10; nothing changes *)
@@ -797,7 +804,10 @@ Lemma width2_refuses_v10 :
   step true st 1 (Stage wit_id (b "g.txt", Some 77)) = (st, Err) /\
   step false st 1 (Stage wit_id (b "g.txt", Some 77)) = (st, Err).
 Proof.
-  repeat split; try (vm_compute; reflexivity). eexists. repeat split; vm_compute; reflexivity.
+  cbv zeta.
+  split; [vm_compute; reflexivity|].
+  split; [eexists; split; [vm_compute; reflexivity|split; vm_compute; reflexivity]|].
+  split; vm_compute; reflexivity.
 Qed.
 
 (** the hypotheses of the commit theorems are met by a concrete state *)
@@ -807,6 +817,7 @@ Lemma commit_nonvacuous :
   c14_recreated_lineage st 1 wit_id = false /\
   snd (step true st 1 (Commit wit_id)) = Ok tt.
 Proof.
+  cbv zeta.
   split; [apply reachable_inv; vm_compute; reflexivity|].
   split; [eexists; split; [vm_compute; reflexivity|vm_compute; discriminate]|].
   split; vm_compute; reflexivity.
